@@ -4112,7 +4112,11 @@ B("C18-optimistic-keyspace-strips-filter", "C18", "C18:R-C18.6:tx::optimistic::O
   """        let keyspace = self.inner.keyspace(name, create_options)?;""",
   """        let keyspace = self
             .inner
-            .keyspace(name, || create_options().with_compaction_filter_factory(None))?;""")
+            .keyspace(name, || {
+                let mut opts = create_options();
+                opts.compaction_filter_factory = None;
+                opts
+            })?;""")
 B("C06-read-tx-own-nonce", "C06", "C06:R-C06.12:tx::optimistic::OptimisticTxDatabase::read_tx:forwards-own-arguments-to-Database-snapshot", _OTXM,
   """    pub fn read_tx(&self) -> Snapshot {
         self.inner.snapshot()
